@@ -143,6 +143,5 @@ class DefaultVisitor(Visitor):
     def v_Default(self, obj, ctx=None):
         """Traverse further if possible (that is, if the object has an
         ``AcceptVisitor`` method)."""
-        super().__init__()
         if hasattr(obj, "AcceptVisitor"):
             return obj.AcceptVisitor(self, ctx)
